@@ -1,6 +1,6 @@
 /* kernsim: shared declarations between helpers.c (userspace model of the BPF
  * helper API) and main.c (protocol + glue that #includes the working-tree
- * tproxy.c). See PROTOCOL.md for the wire format. */
+ * tproxy.c). Wire format: top of main.c. */
 #ifndef KERNSIM_H
 #define KERNSIM_H
 
